@@ -8,6 +8,7 @@
    per-channel mutex makes whole calls atomic — over every interleaving of Install and Commit. *)
 From WK Require Import Base.Base.
 From WK Require Import Model.ReplicaLog Model.QuorumLog Model.Cluster Model.Monitor_C04 Proof.QuorumLog_C04.
+From WK Require Import Proof.QuorumLog_C04_cross.
 Open Scope N_scope.
 
 (* compareAuthorityID is the lexicographic order on (epoch, term, fence); the probes printed by
@@ -114,13 +115,60 @@ Theorem c04_admitted_terminates : forall n local voters wq rot p k,
 Proof. exact runDurableRound_fuel_sufficient. Qed.
 Print Assumptions c04_admitted_terminates.
 
-(* the monitor evaluated on implementation traces accepts every trace of the model: for every
+(* the OWNER-LOCAL clauses of the monitor (c04_holds; the cluster-wide clause is treated below) accept
+   every trace of the model: for every
    configuration and every schedule of installs, commits, restarts, outages, repairs and
    checkpoints, from the initial cluster *)
 Theorem c04_model_satisfies_monitor : forall cfg ops,
   c04_holds (model_trace cfg (cluster_init cfg) ops) = true.
 Proof. exact model_satisfies_c04. Qed.
 Print Assumptions c04_model_satisfies_monitor.
+
+(* ---- across nodes ------------------------------------------------------------------------------------------------
+
+   The fencing state of quorum_log.go is per owner.  Across nodes an older authority is stopped only by what the
+   newer one made durable: its barrier (written when the recovered log is non-empty) or its first business
+   proposal.  Over an EMPTY log nothing is written at install time, and the full statement is false:
+   known finding C04-K1. *)
+
+(* c04_cross_node_empty_log_refuted: (1,1,1) installed on node 1, the newer (1,2,2) installed on node 2, both
+   over an empty log; the deposed leader 1 then gets Receipt 1..1 under (1,1,1); the new leader's first
+   proposal fails with ErrLogConflict.  The monitor classifies the model's own trace as C04-K1 (code 2).
+   Same input: corpus/C04/cross_node_empty_log.json, replayed on the code every run. *)
+Theorem c04_cross_node_empty_log_refuted :
+  fst (run_model x_cfg (cluster_init x_cfg) x_ops) =
+    [ RInstalled (1, 1, 1) 0 0; RInstalled (1, 2, 2) 0 0; RReceipt (1, 1, 1) (TUser 1) 1 1 1; RErr EConflict ] /\
+  C04_monitor (model_case x_cfg x_ops) = 2.
+Proof. exact cross_node_empty_log_receipt. Qed.
+Print Assumptions c04_cross_node_empty_log_refuted.
+
+(* c04_cross_node_blocked_partial — the positive statement, for every network and fault plan, both stores:
+   a durability round (hence a NEW receipt, which is only issued after a successful round, see
+   c03_commit_paths / c01_receipt_implies_quorum) is impossible once more than N - WriteQuorum voters hold, at
+   the proposal's first index, an entry that is not the proposal's own first entry — in particular once the
+   newer authority's barrier or first business proposal is quorum-durable at the deposed leader's next index.
+   Explicit hypothesis (hence _partial): the foreign entries sit exactly at the proposal's first index; the
+   case of a deposed frontier beyond the new leader's barrier needs log matching across replicas as well. *)
+Theorem c04_cross_node_blocked_partial : forall n local voters wq rot p es F n' res,
+  NoDup voters -> DeriveProposalEntries (dp_manifest p) (dp_records p) = Some es ->
+  NoDup F -> incl F (local :: round_followers voters local rot) ->
+  (forall f, In f F -> exists x, ent_at (net_rep n f) (m_base (dp_manifest p) + 1) = Some x /\ hd_error es <> Some x) ->
+  (length (local :: round_followers voters local rot) < length F + N.to_nat wq)%nat ->
+  runDurableRound n local voters wq rot p = (n', res) -> rr_ok res = false.
+Proof. exact round_blocked_by_foreign_entries. Qed.
+Print Assumptions c04_cross_node_blocked_partial.
+
+(* the whole monitor (owner-local + cluster-wide clause) on the model's own observations, BOUNDED (finite domain,
+   vm_compute), 3 voters, quorum 2, all 2801 schedules of at most 4 operations over {install (1,2,2) on node 2,
+   two commands by the deposed leader 1, a command by node 2, restart of node 2, node 3 down / up}:
+   after the bare initial install (empty log) the codes are 0 or the known-finding code 2, never 1;
+   after one acknowledged proposal (non-empty log: the newer authority writes its barrier) always 0. *)
+Theorem c04_cross_node_monitor_bounded :
+  c04_codes_in [0; 2] [OInstall 1 (1, 1, 1) false 2 no_faults] 4 = true /\
+  c04_codes_in [0] [OInstall 1 (1, 1, 1) false 2 no_faults;
+                    OCommit 1 (1, 1, 1) (TUser 5) [Rec (TUser 5) 2 2 40 5 false 1] false no_faults] 4 = true.
+Proof. exact (conj c04_bounded_empty_log c04_bounded_non_empty_log). Qed.
+Print Assumptions c04_cross_node_monitor_bounded.
 
 (* ---- non-vacuity -------------------------------------------------------------------------------- *)
 
